@@ -24,8 +24,8 @@ def hierarchy():
     return classes, anc
 
 
-class Boom(Exception):
-    pass
+class Boom(KeyError):
+    """what a failing listener raises (a KeyError subclass: the kind of error a callback's own dict lookup produces)"""
 
 
 def beh_sx(b):
